@@ -59,9 +59,12 @@ type host struct {
 	hostAfter int  // host function calls after exitSeen
 	tickInTCE []bool
 	tickSnap  []string
+	tickLog   []int  // length of the log right after the j-th tick logged itself
+	tickUnc   []bool // the j-th tick ran below uncaughtString
 	recordRef bool
 	snapFn    func() string
 
+	hpVal   interface{}         // what the hpanic host function panics with (nil: it returns)
 	pre     func(vm *otto.Otto) // run right after otto.New(), before the prelude
 	reenter func()              // run by the hreenter host function before it calls back
 }
@@ -75,13 +78,20 @@ func (h *host) called() {
 // inTCE reports whether the current goroutine's stack contains otto's
 // tryCatchEvaluate, i.e. the evaluator is inside a try block or catch block.
 // Only used to classify disagreements (known-finding signature), never as oracle.
-func inTCE() bool {
+func inTCE() bool { return stackHas("tryCatchEvaluate") }
+
+// inUncaught reports whether the stack contains otto's uncaughtString, i.e. an
+// API entry point is converting an uncaught thrown value to text (running the
+// value's toString / valueOf). Classification only, like inTCE.
+func inUncaught() bool { return stackHas("uncaughtString") }
+
+func stackHas(fn string) bool {
 	var pcs [512]uintptr
-	n := runtime.Callers(2, pcs[:])
+	n := runtime.Callers(3, pcs[:])
 	frames := runtime.CallersFrames(pcs[:n])
 	for {
 		fr, more := frames.Next()
-		if strings.HasSuffix(fr.Function, ".tryCatchEvaluate") || strings.Contains(fr.Function, ".tryCatchEvaluate.") {
+		if strings.HasSuffix(fr.Function, "."+fn) || strings.Contains(fr.Function, "."+fn+".") {
 			return true
 		}
 		if !more {
@@ -135,6 +145,8 @@ func newVM(h *host, limit int) (*otto.Otto, error) {
 			if h.recordRef {
 				h.tickInTCE = append(h.tickInTCE, inTCE())
 				h.tickSnap = append(h.tickSnap, h.snapFn())
+				h.tickLog = append(h.tickLog, len(h.log))
+				h.tickUnc = append(h.tickUnc, inUncaught())
 			}
 			if h.panicTick != 0 && h.ticks == h.panicTick {
 				switch h.payload {
@@ -223,6 +235,14 @@ func newVM(h *host, limit int) (*otto.Otto, error) {
 				panic(err)
 			}
 			return v
+		}},
+		{"hpanic", func(call otto.FunctionCall) otto.Value {
+			// halt-followup family: a host function that panics with a configurable Go value
+			h.called()
+			if h.hpVal != nil {
+				panic(h.hpVal)
+			}
+			return otto.UndefinedValue()
 		}},
 		{"hrun", func(call otto.FunctionCall) otto.Value {
 			h.called()
@@ -376,6 +396,8 @@ type refRun struct {
 	cut      bool
 	tickTCE  []bool
 	tickSnap []string
+	tickLog  []int
+	tickUnc  []bool
 }
 
 // exec is the record of one injected execution.
@@ -384,7 +406,8 @@ type exec struct {
 	delivered  []int   // step indices at which the interrupt function ran
 	delivGID   []int64 // goroutine ids it ran on
 	delivTCE   bool
-	stepsAfter int // step hooks fired after the injected panic was raised
+	delivUnc   bool // delivered below uncaughtString
+	stepsAfter int  // step hooks fired after the injected panic was raised
 	hostAfter  int
 	steps      int
 	final      string // snapshot after the run
@@ -428,6 +451,8 @@ func reference(p *prog, thorough bool) (*refRun, error) {
 	ref.log = h.log
 	ref.tickTCE = h.tickInTCE
 	ref.tickSnap = h.tickSnap
+	ref.tickLog = h.tickLog
+	ref.tickUnc = h.tickUnc
 	return ref, nil
 }
 
@@ -484,6 +509,7 @@ func (s *session) run(inj injection, sentinel error, stepCap int) *exec {
 		e.delivGID = append(e.delivGID, curGID())
 		if len(e.delivered) == 1 {
 			e.delivTCE = inTCE()
+			e.delivUnc = inUncaught()
 		}
 		if inj.mode == modeIntPanic {
 			h.exitSeen = true
